@@ -55,7 +55,10 @@ class H:
     def run(self, lines):
         self.calls += len(lines)
         rc, out, err = core.run_harness(self.hb, lines, self.wd, timeout=900)
-        return [core.fparse(o) for o in out]
+        def sp(o):
+            try: return core.fparse(o)
+            except ValueError: return None, None      # noise on the harness' stdout
+        return [sp(o) for o in out]
 
 def dsm_line(mid, cfg, named, dips):
     return core.fcase("c08", [2, mid, cfg[0], cfg[1], named, len(dips)], [cfg[2]] + flat(dips))
